@@ -434,7 +434,11 @@ func runConcurrent(rt *rapid.T, rec *ev.Rec, small bool, src nodeSource) {
 	if viol != "" {
 		rt.Fatalf("%s\nscenario: %s", viol, c.Descriptor())
 	}
-	ok := p2psim.WaitFor(deliverBudget, func() bool {
+	firstBudget := deliverBudget
+	if sc.flood {
+		firstBudget = 30 * time.Second // in flood mode messages are legitimately dropped when a queue-wait expires: do not wait long for them
+	}
+	ok := p2psim.WaitFor(firstBudget, func() bool {
 		if viol = collect(); viol != "" {
 			return true
 		}
